@@ -134,7 +134,7 @@ theorem idsLt_captureScope {env : List Frame} (he : envLt N env = true) (vars : 
   suffices h : ∀ (acc : Frame), Value.idsLtRec N acc = true →
       Value.idsLtRec N (vars.foldl (fun sc x =>
         match envGet env x with
-        | some v => if isBuiltinIdent x then sc else insertAL x v sc
+        | some v => insertAL x v sc
         | none => sc) acc) = true from h [] rfl
   induction vars with
   | nil => intro acc h; exact h
@@ -144,9 +144,7 @@ theorem idsLt_captureScope {env : List Frame} (he : envLt N env = true) (vars : 
     apply ih
     split
     · rename_i v hv
-      split
-      · exact h
-      · exact idsLt_insertAL (idsLt_envGet he hv) h
+      exact idsLt_insertAL (idsLt_envGet he hv) h
     · exact h
 
 theorem idsLt_spreadValues {v : Value} (hv : v.idsLt N = true) : Value.idsLtList N (spreadValues v) = true := by
